@@ -16,7 +16,12 @@ RULE = ('binary exposure: every 2x2 table with cells 0..B (B=6 quick, 8 thorough
         'varied), rows shuffled, two codings of (index level, reference); every completion of the unobserved potential '
         'outcomes enumerated literally for n <= 10 (12 thorough) and by (u, v) count classes for all tables; random large '
         'tables (cells up to 5000) against the closed form; frames with 3-4 exposure levels for the model '
-        'correspondence.  distinct = distinct (table, missing pattern, coding); non-trivial = the fit reports bounds '
+        'correspondence.  Every frame is built in one of 6 index kinds (default, reversed, repeated labels as after '
+        'pd.concat, string ids, float, constant label) x 5 dtype kinds (float, int64, int8/uint8, bool outcome, object) '
+        'and read after one of 4 call histories (fit; fit then summary(3) / summary(1) / summary(3) and summary(0)); one '
+        'frame in five is shared: another RiskDifference is fitted first on a second exposure column (with its own '
+        'missing values) of the same DataFrame object; the frame is snapshotted around all calls; any exception on a '
+        'table with four positive cells is a failure.  distinct = distinct (table, missing pattern, coding, options); non-trivial = the fit reports bounds '
         '(all four cells positive) and the table is not symmetric (a != d or b != c) or has incomplete rows')
 ASSUMPTIONS = ['pandas comparison semantics on a float column: NaN == x is False, NaN != x is True, notnull/dropna '
                'identify exactly the NaN rows (measured on every frame by an independent pure-python count)',
@@ -30,24 +35,93 @@ def nanlist(xs):
     return [float('nan') if x is None else float(x) for x in xs]
 
 
-def fit_impl(e, y, ref, as_int=False):
-    """run the real RiskDifference on the frame (e, y); None = missing"""
-    import zepid
-    if as_int:
-        df = pd.DataFrame({'exp': [int(v) for v in e], 'dis': [int(v) for v in y]})
-    else:
+INDEX_KINDS = ['default', 'shuffled', 'repeated', 'string', 'float', 'constant']
+DTYPE_KINDS = ['float', 'int64', 'int8', 'bool_outcome', 'object']
+HISTORIES = ['fit', 'fit+summary3', 'fit+summary1', 'fit+summary3+summary0']
+DEFAULT_OPTS = {'index': 'default', 'dtype': 'float', 'history': 'fit', 'shared': False}
+
+
+def make_index(kind, n):
+    if kind == 'default':
+        return None
+    if kind == 'shuffled':
+        return [n - i + 10 for i in range(n)]
+    if kind == 'repeated':              # what pd.concat of two parts without ignore_index gives
+        h = max(1, n // 2)
+        return list(range(h)) + list(range(n - h))
+    if kind == 'string':
+        return ['id%03d' % (n - i) for i in range(n)]
+    if kind == 'float':
+        return [0.5 + 1.25 * i for i in range(n)]
+    if kind == 'constant':
+        return [3] * n
+    raise KeyError(kind)
+
+
+def build_df(e, y, opts):
+    """the caller's frame: columns exp, dis (and exp0, a second exposure with its own missing values, when the
+    frame is shared between two analyses); dtype / index kind as asked (dtype kinds other than float need complete data)"""
+    complete = all(v is not None for v in e) and all(v is not None for v in y)
+    dt = opts['dtype'] if complete else 'float'
+    if dt == 'float':
         df = pd.DataFrame({'exp': nanlist(e), 'dis': nanlist(y)})
-    obj = zepid.RiskDifference(reference=ref)
+    elif dt == 'int64':
+        df = pd.DataFrame({'exp': [int(v) for v in e], 'dis': [int(v) for v in y]})
+    elif dt == 'int8':
+        df = pd.DataFrame({'exp': np.array(e, dtype=np.int8), 'dis': np.array(y, dtype=np.uint8)})
+    elif dt == 'bool_outcome':
+        df = pd.DataFrame({'exp': np.array(e, dtype=np.int32), 'dis': np.array(y, dtype=np.bool_)})
+    elif dt == 'object':
+        df = pd.DataFrame({'exp': pd.Series([int(v) for v in e], dtype=object),
+                           'dis': pd.Series([int(v) for v in y], dtype=object)})
+    else:
+        raise KeyError(dt)
+    if opts['shared']:
+        # another exposure column of the same frame, missing on rows where `exp` is observed (and vice versa)
+        n = len(e)
+        df['exp0'] = [float('nan') if (i % 3 == 1) else float(i % 2) for i in range(n)]
+    idx = make_index(opts['index'], len(df))
+    if idx is not None:
+        df.index = idx
+    return df, dt
+
+
+def frame_snapshot(df):
+    return (tuple(df.columns), tuple(map(repr, df.index)), tuple(str(t) for t in df.dtypes), df.shape,
+            tuple(repr(df[c].tolist()) for c in df.columns))
+
+
+def fit_impl(e, y, ref, opts=None):
+    """run the real RiskDifference on the frame (e, y); None = missing.  opts: index / dtype kind, the history of
+    calls made on the object before `results` is read, and whether the caller's frame was first used by another
+    RiskDifference on another exposure column.  Every exception is reported (kind), none escapes."""
+    import zepid
+    opts = dict(DEFAULT_OPTS, **(opts or {}))
+    df, dt = build_df(e, y, opts)
+    before = frame_snapshot(df)
+    first = None
     try:
+        if opts['shared']:
+            other = zepid.RiskDifference(reference=0)
+            try:
+                other.fit(df, exposure='exp0', outcome='dis')
+                first = 'ok'
+            except (ValueError, ZeroDivisionError) as ex:       # a zero cell in the other analysis: irrelevant here
+                first = type(ex).__name__
+        obj = zepid.RiskDifference(reference=ref)
         obj.fit(df, exposure='exp', outcome='dis')
-    except (ValueError, ZeroDivisionError, KeyError) as ex:
-        return {'status': 'err', 'kind': type(ex).__name__}
+        for step in opts['history'].split('+')[1:]:
+            obj.summary(decimal=int(step[len('summary'):]))
+    except Exception as ex:                                      # noqa: BLE001
+        return {'status': 'err', 'kind': type(ex).__name__, 'msg': str(ex)[:120], 'dtype': dt,
+                'frame_untouched': frame_snapshot(df) == before}
     out = {}
     for lab in obj.results.index:
         if not lab.startswith('Ref:'):
             r = obj.results.loc[lab]
             out[float(lab)] = (float(r['RiskDifference']), float(r['LowerBound']), float(r['UpperBound']))
-    return {'status': 'ok', 'levels': out, 'n': int(obj.n)}
+    return {'status': 'ok', 'levels': out, 'n': int(obj.n), 'dtype': dt, 'first_analysis': first,
+            'frame_untouched': frame_snapshot(df) == before}
 
 
 def counts(e, y, lvl):
@@ -85,7 +159,7 @@ def enc_opt(xs, f):
     return ','.join('_' if x is None else f(x) for x in xs) or '[]'
 
 
-def evaluate(chk, drv, rng, e, y, lvl, ref, tag, enum_limit, judge_binary=True, as_int=False):
+def evaluate(chk, drv, rng, e, y, lvl, ref, tag, enum_limit, judge_binary=True, opts=None):
     """one frame, one (index level, reference): gates H, D, K.  Returns the list of failed predicates (for replay)."""
     failed = []
 
@@ -99,15 +173,16 @@ def evaluate(chk, drv, rng, e, y, lvl, ref, tag, enum_limit, judge_binary=True, 
         if not ok:
             failed.append('K:' + what)
 
-    res = fit_impl(e, y, ref, as_int=as_int)
+    opts = dict(DEFAULT_OPTS, **(opts or {}))
+    res = fit_impl(e, y, ref, opts)
     a, b, yo, n = counts(e, y, lvl)
     c, d, _, _ = counts(e, y, ref)
     nmiss = sum(1 for ei, yi in zip(e, y) if ei is None or yi is None)
-    case = {'tag': tag, 'e': list(e), 'y': list(y), 'lvl': lvl, 'ref': ref, 'as_int': as_int, 'impl': res,
+    case = {'tag': tag, 'e': list(e), 'y': list(y), 'lvl': lvl, 'ref': ref, 'opts': opts, 'impl': res,
             'counts': {'a': a, 'b': b, 'y_other': yo, 'n': n, 'c': c, 'd': d}}
     reported = res['status'] == 'ok' and float(lvl) in res['levels']
     nontriv = reported and (a != d or b != c or nmiss > 0)
-    chk.case(None, (tag, a, b, c, d, yo, n, nmiss, lvl, ref) if nontriv else None,
+    chk.case(None, (tag, a, b, c, d, yo, n, nmiss, lvl, ref, repr(sorted(opts.items()))) if nontriv else None,
              sample={k: v for k, v in case.items() if k not in ('e', 'y')} if (nontriv and chk.evals % 211 == 0) else None)
     # ---- H: pandas NaN semantics measured against the pure-python counts
     col = pd.Series(nanlist(e))
@@ -119,7 +194,19 @@ def evaluate(chk, drv, rng, e, y, lvl, ref, tag, enum_limit, judge_binary=True, 
     if not h_ok:
         chk.discard('pandas NaN comparison semantics differ from the assumption')
         return failed
+    for k in ('index', 'dtype', 'history'):
+        chk.count('%s=%s' % (k, res.get('dtype') if k == 'dtype' else opts[k]))
+    if opts['shared']:
+        chk.count('shared_frame')
+    # ---- D: the caller's frame is the data the bounds are about -- it must be the same after every call
+    chk.d(res['frame_untouched'], "the caller's DataFrame is unchanged by fit / summary (values, index, dtypes, shape)", case)
+    if not res['frame_untouched']:
+        failed.append('frame changed')
     if not reported:
+        zero_cell = min(a, b, c, d) == 0 if judge_binary else True
+        if res['status'] == 'err' and not (zero_cell and res.get('kind') in ('ValueError', 'ZeroDivisionError')):
+            # every cell positive (or an exception other than the count functions' rejection): valid input refused
+            D(False, 'RiskDifference raised %s on a valid frame: %s' % (res.get('kind'), res.get('msg')))
         chk.count('not_reported_' + (res.get('kind') or 'level-absent'))
         if drv is not None and res['status'] == 'err' and a + b > 0 and c + d > 0:
             # the model of the fit must refuse the same frames (zero cell -> risk_difference raises)
@@ -224,6 +311,12 @@ def gen_multi(rng):
     return e, y, levels
 
 
+def random_opts(rng):
+    return {'index': INDEX_KINDS[int(rng.integers(0, len(INDEX_KINDS)))],
+            'dtype': DTYPE_KINDS[int(rng.integers(0, len(DTYPE_KINDS)))],
+            'history': HISTORIES[int(rng.integers(0, len(HISTORIES)))], 'shared': bool(rng.uniform() < 0.25)}
+
+
 def run(chk, drv, rng, tier):
     B = 6 if tier == 'quick' else 8
     enum_limit = 10 if tier == 'quick' else 12
@@ -237,8 +330,9 @@ def run(chk, drv, rng, tier):
             lvl, ref = codings[k % 2]
             k += 1
             e, y = build_frame(rng, a, b, c, d, lvl, ref, miss)
-            evaluate(chk, drv, rng, e, y, lvl, ref, 'table', enum_limit,
-                     as_int=(miss == (0, 0, 0) and k % 3 == 0))
+            opts = {'index': INDEX_KINDS[k % len(INDEX_KINDS)], 'dtype': DTYPE_KINDS[(k // 2) % len(DTYPE_KINDS)],
+                    'history': HISTORIES[(k // 3) % len(HISTORIES)], 'shared': k % 5 == 0}
+            evaluate(chk, drv, rng, e, y, lvl, ref, 'table', enum_limit, opts=opts)
     chk.extra['exhaustive'] = False
     chk.extra['exhaustive_tables_cells_up_to'] = B
     # random large tables
@@ -247,7 +341,7 @@ def run(chk, drv, rng, tier):
         miss = tuple(int(v) for v in rng.integers(0, 40, size=3)) if rng.uniform() < 0.7 else (0, 0, 0)
         lvl, ref = codings[int(rng.integers(0, 2))]
         e, y = build_frame(rng, a, b, c, d, lvl, ref, miss)
-        evaluate(chk, drv, rng, e, y, lvl, ref, 'large', enum_limit)
+        evaluate(chk, drv, rng, e, y, lvl, ref, 'large', enum_limit, opts=random_opts(rng))
     # exposure with 3-4 levels: correspondence of the model with the code (pooled comparison group) and width only;
     # validity against the reference level is outside the property (binary exposure)
     for _ in range(40 if tier == 'quick' else 300):
@@ -256,7 +350,7 @@ def run(chk, drv, rng, tier):
         ref = present[int(rng.integers(0, len(present)))]
         for lvl in present:
             if lvl != ref:
-                evaluate(chk, drv, rng, e, y, lvl, ref, 'multi', enum_limit, judge_binary=False)
+                evaluate(chk, drv, rng, e, y, lvl, ref, 'multi', enum_limit, judge_binary=False, opts=random_opts(rng))
 
 
 def replay(rec):
@@ -274,9 +368,9 @@ def replay(rec):
         with common.quiet():
             failed = evaluate(chk, drv, np.random.default_rng(0), case['e'], case['y'], case['lvl'], case['ref'],
                               case.get('tag', 'replay'), 12, judge_binary=case.get('tag') != 'multi',
-                              as_int=case.get('as_int', False))
+                              opts=case.get('opts'))
         print('counts', case.get('counts'), 'lvl', case['lvl'], 'ref', case['ref'])
-        print('  implementation now:', fit_impl(case['e'], case['y'], case['ref'], case.get('as_int', False)))
+        print('  implementation now:', fit_impl(case['e'], case['y'], case['ref'], case.get('opts')))
         print('  failed predicates :', failed or 'none')
         bad += bool(failed)
     if drv is not None:
